@@ -104,6 +104,9 @@ type cfgT struct {
 	MaxSize int  `json:"max_file_size"`
 	NoRDF   bool `json:"no_readdirfile"`
 	ExSet   int  `json:"extractor_set"`
+	// Paths: "" = whole-tree walk; "dir" / "file" = PathsToExtract holds the first directory / the
+	// first required file of the tree (the explicit-path mode stats the requested path first)
+	Paths string `json:"requested_path_kind,omitempty"`
 }
 
 type exDef struct {
@@ -150,6 +153,9 @@ func run(root *memfs.Node, c cfgT, faults map[string]error) result {
 	}
 	cfg := &scalibr.ScanConfig{FilesystemExtractors: exs, Capabilities: &plugin.Capabilities{}, ScanRoots: []*scalibrfs.ScanRoot{{FS: m, Path: ""}},
 		MaxFileSize: c.MaxSize, ErrorOnFSErrors: c.Fatal}
+	if rp := requested(root, c); rp != "" {
+		cfg.PathsToExtract = []string{rp}
+	}
 	var sr *scalibr.ScanResult
 	p, stack := ev.Recover(func() { sr = scalibr.New().Scan(context.Background(), cfg) })
 	if p != nil {
@@ -169,6 +175,23 @@ func run(root *memfs.Node, c cfgT, faults map[string]error) result {
 	res.overallS = sr.Status.String()
 	res.log = m.Log
 	return res
+}
+
+// requested returns the path put into PathsToExtract for this config ("" = none / not applicable).
+func requested(root *memfs.Node, c cfgT) string {
+	out := ""
+	memfs.Walk(root, func(p string, nd *memfs.Node) {
+		if out != "" {
+			return
+		}
+		if c.Paths == "dir" && nd.Kind == memfs.Dir {
+			out = p
+		}
+		if c.Paths == "file" && nd.Kind == memfs.File && nd.Name != "junk" {
+			out = p
+		}
+	})
+	return out
 }
 
 func under(p, dir string) bool {
@@ -233,6 +256,14 @@ func verdict(root *memfs.Node, c cfgT, ref, got result, fs []fault) (key, detail
 		case op == "stat" && p == ".":
 			traversal = true
 			exemptDirs = append(exemptDirs, ".")
+		case op == "stat" && p == requested(root, c) && isDir(root, p):
+			// stat of an explicitly requested directory (by walkIndividualPaths, then by the walker)
+			traversal = true
+			exemptDirs = append(exemptDirs, p)
+		case op == "stat" && p == requested(root, c) && occ == "0":
+			// the stat walkIndividualPaths does on an explicitly requested file
+			traversal = true
+			exemptFiles[p] = true
 		case (op == "open" || op == "readdir" || op == "readdirfs" || op == "fstat") && isDir(root, p):
 			traversal = true
 			exemptDirs = append(exemptDirs, p)
@@ -421,7 +452,10 @@ func main() {
 		for _, ms := range []int{0, 100} {
 			for _, nordf := range []bool{false, true} {
 				for es := range exSets {
-					cfgs = append(cfgs, cfgT{fatal, ms, nordf, es})
+					cfgs = append(cfgs, cfgT{fatal, ms, nordf, es, ""})
+					if !nordf {
+						cfgs = append(cfgs, cfgT{fatal, ms, nordf, es, "dir"}, cfgT{fatal, ms, nordf, es, "file"})
+					}
 				}
 			}
 		}
@@ -445,6 +479,9 @@ func main() {
 			root := trees[i]
 			ts := root.String()
 			for _, c := range cfgs {
+				if c.Paths != "" && requested(root, c) == "" {
+					continue
+				}
 				ref := run(root, c, nil)
 				if ref.panicked != "" || ref.overall != plugin.ScanStatusSucceeded {
 					r.Violation("fault-free-run-failed", ts+": "+ref.panicked+ref.overallS, nil)
@@ -502,5 +539,5 @@ func main() {
 	r.Set("bound", map[string]any{"single_faults_complete_up_to_nodes": completed, "fault_pairs_complete_up_to_nodes": completedPairs, "configs": len(cfgs)})
 	r.Assume("memfs numbers every FS operation of a scan deterministically; a fault is identified by (operation, path, occurrence)")
 	r.Assume("UseGitignore stays off: the property's quantifier lists the operation sites of the plain walk")
-	r.Finish(fmt.Sprintf("every tree with <=%d nodes holding >=1 required file (dirs a,b; p1.txt, p2.txt (required by 2 extractors), x.bin (exec, predicate calls Stat), junk) x {ErrorOnFSErrors} x {MaxFileSize 0,100} x {ReadDirFile, fallback} x 2 extractor sets: every single fault = every operation site of the fault-free run x {permission, I/O, not-exist}; every pair of sites (trees <=%d nodes) with 3 kind combinations; each faulted Scan compared with the fault-free Scan. non-trivial = runs in which every injected fault was actually reached (a first fault can mask the second)", maxNodes, pairNodes), completed == maxNodes)
+	r.Finish(fmt.Sprintf("every tree with <=%d nodes holding >=1 required file (dirs a,b; p1.txt, p2.txt (required by 2 extractors), x.bin (exec, predicate calls Stat), junk) x {ErrorOnFSErrors} x {MaxFileSize 0,100} x {ReadDirFile, fallback} x 2 extractor sets x {whole-tree walk, explicitly requested directory, explicitly requested file}: every single fault = every operation site of the fault-free run x {permission, I/O, not-exist}; every pair of sites (trees <=%d nodes) with 3 kind combinations; each faulted Scan compared with the fault-free Scan. non-trivial = runs in which every injected fault was actually reached (a first fault can mask the second)", maxNodes, pairNodes), completed == maxNodes)
 }
